@@ -127,7 +127,7 @@ def renderTok : Tok → Str
 inductive LMode where
   | code | minus
   | word (acc : Str) | str (acc : Str) | strQ (acc : Str) | id (acc : Str) | idQ (acc : Str)
-  deriving Repr
+  deriving DecidableEq, Repr
 
 /-- what a character does in `code` mode with nothing pending -/
 def dispatch (c : Char) : LMode × List Tok :=
@@ -309,6 +309,11 @@ def mapOpt {α β : Type} (f : α → Option β) : List α → Option (List β)
     | some b, some bs => some (b :: bs)
     | _, _ => none
 
+/-- a segment that must be a single token -/
+def one {β : Type} (f : Tok → Option β) : List Tok → Option β
+  | [a] => f a
+  | _ => none
+
 def tyOfWord (k : Str) : ColTy := if k = k_INTEGER then .integer else .text
 
 /-- one column specification (keywords are validated by re-rendering, see `check`) -/
@@ -342,7 +347,7 @@ def guess : List Tok → Option Stmt
     else if a = k_CREATE ∧ b = k_INDEX then
       match nameOf x, rest with
       | some ix, _ :: y :: _ :: body =>
-        match nameOf y, mapOpt nameOf (splitAt comma body.dropLast) with
+        match nameOf y, mapOpt (one nameOf) (splitAt comma body.dropLast) with
         | some t, some cols => some (Stmt.createIndex ix t cols)
         | _, _ => none
       | _, _ => none
@@ -351,7 +356,7 @@ def guess : List Tok → Option Stmt
       | some t, _ :: body =>
         match splitAt rparen body with
         | [ns, _ :: _ :: vs, []] =>
-          match mapOpt nameOf (splitAt comma ns), mapOpt litOf (splitAt comma vs) with
+          match mapOpt (one nameOf) (splitAt comma ns), mapOpt (one litOf) (splitAt comma vs) with
           | some cols, some vals => some (Stmt.insert t cols vals)
           | _, _ => none
         | _ => none
@@ -359,13 +364,15 @@ def guess : List Tok → Option Stmt
     else none
   | _ => none
 
-/-- the version-table statements (fixed shapes) -/
-def guessVt : List Tok → Option Stmt
-  | [_, _, _, _, _, _, _, _, .str v, _, _, _] => some (.vtInsert v)
-  | [_, _, _, _, _, .str new, _, _, _, _, _, .str old] => some (.vtUpdate old new)
-  | [_, _, _, _, _, _, _, _, .str v] => some (.vtDelete v)
-  | [_, _, _] => some .vtDrop
-  | _ => some .vtCreate
+/-- the string literal at position `i` (version numbers of the version-table statements) -/
+def strAt (ts : List Tok) (i : Nat) : Str :=
+  match ts[i]? with
+  | some (.str v) => v
+  | _ => []
+
+/-- the version-table statements have fixed shapes: candidates by position -/
+def vtCandidates (ts : List Tok) : List Stmt :=
+  [.vtCreate, .vtDrop, .vtInsert (strAt ts 8), .vtUpdate (strAt ts 11) (strAt ts 5), .vtDelete (strAt ts 8)]
 
 /-- a guess is accepted only if rendering it gives back exactly the tokens read -/
 def check (ts : List Tok) (g : Option Stmt) : Option Stmt :=
@@ -374,7 +381,7 @@ def check (ts : List Tok) (g : Option Stmt) : Option Stmt :=
   | none => none
 
 def parseToks (ts : List Tok) : Option Stmt :=
-  match check q ts (guessVt ts) with
+  match (vtCandidates ts).find? (fun c => toks (stmtP q c) == ts) with
   | some s => some s
   | none => check q ts (guess ts)
 
